@@ -535,6 +535,9 @@ class CExec:
 
     def e_IntegerLiteral(self, n):
         ti = self.tinfo(n["type"]["qualType"])
+        sub = getattr(self, "literal_subst", None)
+        if sub and int(n["value"]) in sub and ti[1] == 32:
+            return sub[int(n["value"])]      # a sentinel literal standing for a symbolic compile-time constant (see ccheck)
         return IV(z3.BitVecVal(int(n["value"]), ti[1]), ti[1], ti[2])
 
     def e_FloatingLiteral(self, n):
@@ -836,7 +839,7 @@ class Infeasible(Exception):
     pass
 
 
-def explore(tu: TU, fname, make_args, static_init=None, max_paths=512):
+def explore(tu: TU, fname, make_args, static_init=None, max_paths=512, literal_subst=None):
     """All paths of fname on the arguments built by make_args(exec). -> list of dict(pc, ret, effects, statics, exec)"""
     out = []
     pending = [[]]
@@ -846,6 +849,7 @@ def explore(tu: TU, fname, make_args, static_init=None, max_paths=512):
         prefix = pending.pop()
         ex = CExec(tu, prefix)
         ex.static_init = static_init or {}
+        ex.literal_subst = literal_subst
         try:
             args = make_args(ex)
             ret = ex.call(fname, args)
